@@ -2309,7 +2309,7 @@ def _update_gradient_JTDAJ_dense_tiled_compact(nv_pad: int, tile_size: int, njma
   of the result is correct.
   """
   if njmax < tile_size:
-    tile_size = njmax
+    tile_size = max(njmax, 1)  # njmax == 0: no rows, but the row loop below needs a non-zero step
 
   TILE_SIZE_K = tile_size
 
@@ -2365,7 +2365,7 @@ def _update_gradient_JTDAJ_dense_tiled_compact(nv_pad: int, tile_size: int, njma
 @cache_kernel
 def _update_gradient_JTDAJ_dense_tiled(nv_pad: int, tile_size: int, njmax: int, nC: int):
   if njmax < tile_size:
-    tile_size = njmax
+    tile_size = max(njmax, 1)  # njmax == 0: no rows, but the row loop below needs a non-zero step
 
   TILE_SIZE_K = tile_size
 
